@@ -482,6 +482,8 @@ def run_impl(case, pid):
             _run(case, pid, run, w, stats)
         except _Abort:
             pass
+    if pid == 'C01':
+        _units_monitor(case, run)
     for k, v in stats.items():
         if v:
             run.tags.add(k)
@@ -496,6 +498,34 @@ def run_impl(case, pid):
     }
     run.nontrivial = bool(nt.get(pid))
     return run
+
+
+def _units_monitor(case, run):
+    """C01, unit clause, on the real parsers: the same quantity in different spellings."""
+    import hashlib
+    import random as _random
+    from treadmill import utils
+    from treadmill.scheduler import loader
+    seed = int(hashlib.sha1(repr(case['ops'][:8]).encode()).hexdigest()[:8], 16)
+    rng = _random.Random(seed)
+    H = lambda clause, detail: run.hits.append(fw.Hit(clause=clause, call_site='units', detail=str(detail)[:300]))
+    for _ in range(6):
+        n = rng.choice([0, 1, 2, 3, 7, 10, 100, 1023, 1024, 4096, rng.randint(0, 10 ** 6)])
+        for big, small in (('G', 'M'), ('T', 'G'), ('M', 'K')):
+            for f in (utils.megabytes, utils.kilobytes, utils.size_to_bytes):
+                a, b = f('%d%s' % (n, big)), f('%d%s' % (1024 * n, small))
+                if a != b:
+                    H('unit-spelling-differs', (f.__name__, n, big, small, a, b))
+            u = rng.choice([big, big.lower()])
+            if utils.size_to_bytes('%d%s' % (n, u)) != utils.size_to_bytes('%d%s' % (n, big)):
+                H('unit-case-differs', (n, u))
+        if not (utils.cpu_units('%d%%' % n) == utils.cpu_units('%d' % n) == n):
+            H('cpu-spelling-differs', (n, utils.cpu_units('%d%%' % n), utils.cpu_units('%d' % n)))
+        r1 = loader.resources({'memory': '%dG' % n, 'cpu': '%d%%' % n, 'disk': '%dM' % (1024 * n)})
+        r2 = loader.resources({'memory': '%dM' % (1024 * n), 'cpu': '%d' % n, 'disk': '%dG' % n})
+        if r1 != r2 or r1 != [1024 * n, n, 1024 * n]:
+            H('resources-vector-differs', (n, r1, r2))
+    run.tags.add('units')
 
 
 class _Abort(Exception):
